@@ -751,6 +751,44 @@ func (fg *FuncGen) trCall(x *SCall, env *SpecEnv, hint types.Type) Val {
 	case "ncalls":
 		name := fg.calleeKey(x.Args[0], env)
 		return Val{T: fg.ghostGet(env.st, "$calls:"+name, "Int", "0"), Typ: fg.mathInt()}
+	case "calledwith":
+		// calledwith(F, j, v): some direct call to F so far passed v as argument j (receiver first);
+		// calledwith(F, i, v, j, w) with i < j: some call passed v as argument i and w as argument j.
+		// A set membership test instead of `exists k :: callarg(F, k, j) == v`: no witness to find.
+		name := fg.calleeKey(x.Args[0], env)
+		idx := func(n int) int {
+			if lit, ok := x.Args[n].(*SLit); ok {
+				k, _ := strconv.Atoi(lit.Val)
+				return k
+			}
+			fg.specFail(env, "calledwith: argument index must be a literal")
+			return 0
+		}
+		switch len(x.Args) {
+		case 3:
+			j := idx(1)
+			t := fg.g.calleeArgType(name, j)
+			if t == nil {
+				fg.specFail(env, "calledwith: %s has no argument %d", name, j)
+			}
+			v := arg(2, t)
+			cell := fmt.Sprintf("$cw:%s:%d", name, j)
+			srt := fmt.Sprintf("(Array %s Bool)", enc.sortOf(t))
+			return Val{T: fmt.Sprintf("(select %s %s)", fg.ghostGet(env.st, cell, srt, fmt.Sprintf("((as const %s) false)", srt)), v.T), Typ: B}
+		case 5:
+			i, j := idx(1), idx(3)
+			ti, tj := fg.g.calleeArgType(name, i), fg.g.calleeArgType(name, j)
+			if ti == nil || tj == nil || i >= j {
+				fg.specFail(env, "calledwith: %s needs argument indices i < j that exist", name)
+			}
+			v, w := arg(2, ti), arg(4, tj)
+			cell := fmt.Sprintf("$cw2:%s:%d:%d", name, i, j)
+			srt := fmt.Sprintf("(Array %s (Array %s Bool))", enc.sortOf(ti), enc.sortOf(tj))
+			init := fmt.Sprintf("((as const %s) ((as const (Array %s Bool)) false))", srt, enc.sortOf(tj))
+			return Val{T: fmt.Sprintf("(select (select %s %s) %s)", fg.ghostGet(env.st, cell, srt, init), v.T, w.T), Typ: B}
+		}
+		fg.specFail(env, "calledwith takes (F, j, v) or (F, i, v, j, w)")
+		return Val{}
 	case "callarg", "callres":
 		// callarg(F, k, j): j-th argument (receiver first) of the k-th direct call to F;
 		// callres(F, k, i): its i-th result
